@@ -39,7 +39,9 @@ Relevant(o) ==
     [] Prop = "IMPL" -> TRUE
 
 (* expressions outside the documented syntax (a flag inside a tree wildcard ...) are out of the domain *)
-Usable(o) == o.outcome = "ok" /\ o.qpanic = "" /\ o.dfa.ok /\ Relevant(o) /\ ParsesOK(o)
+(* - except for C11: whatever an undocumented spelling means (a class range with descending bounds builds and   *)
+(* matches nothing), a pattern that reports invariant text must match that text and nothing else             *)
+Usable(o) == o.outcome = "ok" /\ o.qpanic = "" /\ o.dfa.ok /\ Relevant(o) /\ (ParsesOK(o) \/ Prop = "C11")
 
 Cap(o) == IF Prop = "C10" THEN (IF o.q.dhi = -1 THEN o.q.dlo ELSE o.q.dhi) + 1 ELSE 1
 
